@@ -39,7 +39,7 @@ func Profile() *world.Profile {
 		ActionPm:   200,
 		NotFoundPm: 500,
 		BeforesPm:  200,
-		AutoHeadPm: 200, WrapperPm: 200, WrapperRecPm: 600,
+		AutoHeadPm: 200, WrapperPm: 200, WrapperRecPm: 600, StagedPm: 150,
 		MinRoutes: 2, MaxRoutes: 10, MaxRouteHs: 3,
 		Envs:      []int{0, 1, 2},
 		HeadersPm: 120,
